@@ -67,6 +67,12 @@ def run(run, tier, seed):
                 ncol = len(e["seqs"][0]) if e.get("seqs") else 0
                 if 0 < ncol < nrows or mask:
                     run.nontriv([rows, filt, minf, am, mask, nogap])
+            if n >= 3:
+                # --min-freq typed with many decimals: t/n to full double precision, and rounded to seven places
+                for fmt in ("%r", "%.7f"):
+                    t_ = rng.randint(1, n - 1)
+                    sb.align("x", n, None, rng.choice(["no-filter", "no-const"]), False, False, False, minf_text=fmt % (t_ / n))
+                    run.evaluations += 1
             # library route for the same table
             t = {"k": k, "rc": ti % 2 == 0, "names": names, "rows": rows}
             for (filt, minf, am, mask, nogap) in combos[:4]:
@@ -155,7 +161,7 @@ def rerun_episode(run, case, tag):
                 pass        # twin probes are re-derived only by a full re-run of the check
             elif ev == "align":
                 n = len(e.get("names") or []) or 1
-                sb.align(c["file"], n, c["minf"], c["filter"], c["am"], c["mask"], c["nogap"])
+                sb.align(c["file"], n, c["minf"], c["filter"], c["am"], c["mask"], c["nogap"], minf_text=c.get("minf_text") or None)
             elif ev == "distance":
                 sb.distance(c["file"], 1, c["minf"], c.get("allow_ambig", False), c.get("threads", 1), default_minf=c.get("default_minf", False))
         events = sb.events
